@@ -448,9 +448,9 @@ fn gen_bracket(rng: &mut Rng, member: &mut Vec<u8>) -> Vec<u8> {
         p.push(b']');
         member.push(b']');
     }
-    let items = 1 + rng.below(3);
+    let items = 1 + rng.below(5);
     for _ in 0..items {
-        match rng.below(12) {
+        match rng.below(15) {
             0..=3 => {
                 let b = *rng.pick(LIT);
                 if b != b']' {
@@ -525,9 +525,33 @@ fn gen_bracket(rng: &mut Rng, member: &mut Vec<u8>) -> Vec<u8> {
                 p.push(b);
                 member.push(b);
             }
-            _ => {
+            11 => {
                 p.push(b'-');
                 member.push(b'-');
+            }
+            12 => {
+                // a dash directly followed by a byte: a range if the previous item left a range start
+                // (literal, escaped literal), a literal dash after a range or a class
+                let b = *rng.pick(b"zaZ9_.!^");
+                p.push(b'-');
+                if rng.chance(1, 5) {
+                    p.push(b'\\');
+                }
+                p.push(b);
+                member.push(*rng.pick(&[b'-', b, b'q', b'm']));
+            }
+            _ => {
+                // one or more classes with nothing in between, then a dash and a byte
+                for _ in 0..1 + rng.below(2) {
+                    let cl = rng.pick(CLASSES);
+                    p.extend_from_slice(b"[:");
+                    p.extend_from_slice(cl.as_bytes());
+                    p.extend_from_slice(b":]");
+                }
+                let b = *rng.pick(b"zaZ9_");
+                p.push(b'-');
+                p.push(b);
+                member.push(*rng.pick(&[b'-', b, b'q', b'5', b'B']));
             }
         }
     }
@@ -673,6 +697,27 @@ fn gen(rng: &mut Rng, n: usize) -> Vec<Case> {
         for t in [&b"a"[..], b"A", b"z", b"Z", b"^", b"_", b"5", b"x", b"-", b"d"] {
             for f in [0u64, 2, 3] {
                 out.push(case(f, p, t));
+            }
+        }
+    }
+    // boundary block 5: adjacency inside one bracket expression: what a `-` means after a literal, an
+    // escaped literal, a range, and after one or two classes that follow them (the class resets the
+    // range start, so `[a[:digit:]-z]` is a, digits, '-', z)
+    for first in [&b""[..], b"a", b"\\a", b"a-c", b"]", b"-"] {
+        for classes in [&b""[..], b"[:digit:]", b"[:digit:][:upper:]", b"[:spaci:]", b"[:digit]"] {
+            for tail in [&b"-z"[..], b"-\\z", b"-", b"--z", b"-[:alpha:]", b"z"] {
+                for neg in [&b""[..], b"!"] {
+                    let mut p = b"[".to_vec();
+                    p.extend_from_slice(neg);
+                    p.extend_from_slice(first);
+                    p.extend_from_slice(classes);
+                    p.extend_from_slice(tail);
+                    p.push(b']');
+                    let texts: &[&[u8]] = if neg.is_empty() { &[b"q", b"-", b"5", b"z", b"b"] } else { &[b"q", b"-"] };
+                    for t in texts {
+                        out.push(case(0, &p, t));
+                    }
+                }
             }
         }
     }
